@@ -222,6 +222,24 @@ def compose_list(imps, tname, fname, fields, what, compress_branch=True):
     return compose_body(imps, tname, body, fields, what, compress_branch)
 
 
+ORDER = []   # struct field names in the order compose statements mention them
+
+
+def note(f):
+    if not ORDER or ORDER[-1] != f:
+        ORDER.append(f)
+
+
+def new_params(imps, tname):
+    """parameter names of the inherent `fn new`, or None"""
+    for name, tr, body in imps:
+        if name == tname and tr is None:
+            m = re.search(r"\bfn\s+new\s*\((.*?)\)\s*->", body, re.S)
+            if m:
+                return re.findall(r"(\w+)\s*:", m.group(1))
+    return None
+
+
 def compose_body(imps, tname, body, fields, what, compress_branch):
     out = []
     ss = stmts(body)
@@ -307,6 +325,7 @@ def compose_body(imps, tname, body, fields, what, compress_branch):
 
 
 def fkind(fields, f, expect, what):
+    note(f)
     if f not in fields:
         raise GenError("%s: no struct field %s" % (what, f))
     k = kind_of_type(fields[f], what + "." + f)
@@ -451,8 +470,24 @@ def build():
             consts = dict((m.group(1), num(m.group(2))) for m in
                           re.finditer(r"const\s+(\w+)\s*:\s*usize\s*=\s*(\d+)\s*;", src))
             pl, long_ = parse_list(find_fn(imps, tname, "parse", None), tname + "::parse", consts)
+            params = new_params(imps, tname)
+            del ORDER[:]
             cl = compose_list(imps, tname, "compose_rdata", fields, tname + "::compose_rdata", True)
+            order_c = list(ORDER)
+            del ORDER[:]
             kl = compose_list(imps, tname, "compose_canonical_rdata", fields, tname + "::compose_canonical_rdata", False)
+            order_k = list(ORDER)
+            # parse passes its results to new() positionally, so the order in which
+            # compose writes the struct fields must be the parameter order of new()
+            if params is not None:
+                def dedup(xs):
+                    o = []
+                    for x in xs:
+                        if x not in o:
+                            o.append(x)
+                    return o
+                if dedup(order_c) != params or dedup(order_k) != params:
+                    raise GenError("%s: compose writes fields %s / %s but new() takes %s" % (tname, order_c, order_k, params))
             none = rdlen_none(imps, tname, tname + "::rdlen")
             ctor = ctor_checks(imps, tname, tname)
         merged = merge(tname, pl, cl, kl)
